@@ -4,8 +4,9 @@ Worker threads run the real katdal code, but only one of them runs at any time: 
 at each *yield point* and waits for the scheduler (the main thread) to hand it the baton again.
 
 Yield points
-  * every `line` event (sys.settrace) in a traced code object: by default the methods of the
-    anchored classes, in `fine` mode every function of the anchored files;
+  * every `line` event in a traced code object (sys.monitoring LINE events enabled on exactly those
+    code objects where available, i.e. CPython >= 3.12, otherwise sys.settrace): by default the
+    methods of the anchored classes, in `fine` mode every function of the anchored files;
   * a failed `acquire` of an instrumented lock (the worker is then *blocked* and is not scheduled
     again before the lock is free).
 
@@ -21,6 +22,78 @@ Nothing here decides what a violation is; a hung worker raises `SchedBroken` (th
 """
 import sys
 import threading
+
+
+_MON = getattr(sys, 'monitoring', None)
+_CURRENT = None          # the scheduler whose run is in progress (one at a time per process)
+_TOOL = None
+_INSTALLED = set()
+
+
+def _line_event(code, line):
+    s = _CURRENT
+    if s is None:
+        return None
+    w = s.by_ident.get(threading.get_ident())
+    if w is None or w.state != 'running':
+        return None
+    w.park(sys._getframe(1))
+    return None
+
+
+def _mon_install(codes):
+    global _TOOL
+    if _TOOL is None:
+        for tid in (_MON.DEBUGGER_ID, _MON.PROFILER_ID, _MON.OPTIMIZER_ID, 3, 4):
+            if _MON.get_tool(tid) is None:
+                _MON.use_tool_id(tid, 'katdal-verif-c20')
+                _TOOL = tid
+                break
+        else:
+            raise SchedBroken('no free sys.monitoring tool id')
+        _MON.register_callback(_TOOL, _MON.events.LINE, _line_event)
+    for c in codes:
+        if c not in _INSTALLED:
+            _MON.set_local_events(_TOOL, c, _MON.events.LINE)
+            _INSTALLED.add(c)
+
+
+def mon_remove():
+    """switch the line events off again (they are left on between runs: re-instrumenting is slow)"""
+    if _TOOL is not None:
+        for c in list(_INSTALLED):
+            _MON.set_local_events(_TOOL, c, 0)
+        _INSTALLED.clear()
+
+
+def codes_in_files(files):
+    """all code objects (functions, methods, nested functions) defined in the given source files"""
+    out, seen = [], set()
+
+    def add(code):
+        if code in seen:
+            return
+        seen.add(code)
+        out.append(code)
+        for k in code.co_consts:
+            if hasattr(k, 'co_code'):
+                add(k)
+    files = set(files)
+    for mod in list(sys.modules.values()):
+        if getattr(mod, '__file__', None) not in files:
+            continue
+        for v in list(vars(mod).values()):
+            objs = [v]
+            if isinstance(v, type) and getattr(v, '__module__', None) == mod.__name__:
+                objs = list(vars(v).values())
+            for o in objs:
+                o = getattr(o, 'fget', o)
+                o = getattr(o, '__func__', o)
+                o = getattr(o, '__wrapped__', o)
+                code = getattr(o, '__code__', None)
+                if code is not None and code.co_filename in files:
+                    add(code)
+    return out
 
 
 class SchedBroken(Exception):
@@ -100,6 +173,7 @@ class Worker:
         self.result = None
         self.exc = None
         self.steps = 0
+        self.aborted = False
         self.thread = threading.Thread(target=self._run, name=f'c20-worker-{idx}', daemon=True)
 
     def _run(self):
@@ -110,11 +184,13 @@ class Worker:
             if sched.abort:
                 raise _Abort()
             self.state = 'running'
-            sys.settrace(self._trace)
+            if _MON is None:
+                sys.settrace(self._trace)
             try:
                 self.result = self.fn()
             finally:
-                sys.settrace(None)
+                if _MON is None:
+                    sys.settrace(None)
         except _Abort:
             self.exc = None
             self.aborted = True
@@ -188,8 +264,20 @@ class Scheduler:
 
         Returns dict(schedule, trace, results, excs, deadlock).  `observe(sched, t)` is called in the
         scheduler thread after every step while all workers are parked."""
+        global _CURRENT
         self.workers = [Worker(self, i, fn) for i, fn in enumerate(fns)]
         self.abort = False
+        if _MON is not None:
+            if _CURRENT is not None:
+                raise SchedBroken('two controlled runs at the same time')
+            codes = set(self.codes)
+            if self.fine:
+                codes |= set(codes_in_files(self.files))
+            stale = _INSTALLED - codes
+            if stale:
+                mon_remove()
+            _mon_install(codes)
+            _CURRENT = self
         for w in self.workers:
             w.thread.start()
         schedule, trace = [], []
@@ -227,6 +315,7 @@ class Scheduler:
                     blocked=[(w.idx, w.blocked_on.name) for w in self.workers if w.blocked_on is not None])
 
     def _cleanup(self):
+        global _CURRENT
         self.abort = True
         alive = [w for w in self.workers if w.state != 'done']
         for w in alive:
@@ -240,6 +329,8 @@ class Scheduler:
             pass
         for w in self.workers:
             w.frame = None
+        if _MON is not None:
+            _CURRENT = None
 
 
 # ------------------------------------------------------------------------------------- exploration
